@@ -130,6 +130,9 @@ func main() {
 	}
 	t0 := time.Now()
 	deadline := t0.Add(time.Duration(*budget) * time.Second)
+	if os.Getenv("VERIF_DEADLINE") == "" {
+		props.SetSubDeadline(deadline)
+	}
 	total := &engine.Report{Exhaustive: true}
 	engine.HangHook = func(sc *engine.Scenario, cfg drv.Config, prelude, hist []model.Op) {
 		total.Exhaustive = false
